@@ -14,8 +14,8 @@ def run(tier, seed):
     res.explanation = ('Tier P (unbounded, small): the container primitives under the graph -- IndexList.__delitem__ (swap-with-last deletion that re-indexes the moved element) and '
                        'GrowingList.__setitem__ (grow on demand) -- are proved on a sequence/object-heap model against their abstract postconditions (see functions_under_contract for '
                        'what is discharged in this run). Tier B (bounded, the deciding part for the class invariant): wf(circuit) is evaluated as a runtime class invariant after '
-                       'every step of edit histories through the public API (exhaustive over a small alphabet up to a stated length, seeded long histories).')
-    res.bounded = [graph_drv.history_part(tier, seed)]
+                       'every step of edit histories through the public API (exhaustive over a small alphabet up to a stated length, seeded long histories), and after copy / pickle / eliminate_1to1_forks / substitute on the shared circuit space (incl. chains of 1:1 forks, cells and forks sharing a name).')
+    res.bounded = [graph_drv.history_part(tier, seed), graph_drv.transforms_part(tier, seed)]
     res.assumptions = ['well-formed use as stated in the property: explicit pins only on free positions, nodes removed after their lines, forks have exactly one input',
                        'the constructors/removers of Node and Line and the rewiring transformations are covered by the bounded part only']
     res.trusted_base = ['pyvc', 'z3 5.1.0', 'bounded/graph_drv.py (wf predicate)']
